@@ -414,6 +414,9 @@ def stepCore (e : Env) (line : String) : Env × String :=
       let some n := ns.toNat? | throw "bad n"
       pure (e, showSpec (Pepit.Method.pg γ n))
     | "spec.gfsc" :: _ => pure (e, showSpec Pepit.Method.gfsc)
+    | "spec.agfc" :: _ :: ts :: _ =>
+      let some t := parseRat ts | throw "bad rat"
+      pure (e, showSpec (Pepit.Method.agfc t))
     | "spec.gfc" :: _ :: ts :: _ =>
       let some t := parseRat ts | throw "bad rat"
       pure (e, showSpec (Pepit.Method.gfc t))
